@@ -35,6 +35,11 @@ EXTRA = {
             ("SafeC.Alloc.keeps_reorderLoop", "SafeC.Proofs.AllocTight", "lemma", "unrepaired reorder loop, any mark pattern, any oracle: no surviving run contains a failed request"),
             ("SafeC.Alloc.keeps_composeLoop", "SafeC.Proofs.AllocTight", "lemma", "the same for the compose loop"),
             ("SafeC.Alloc.normProg_wp", "SafeC.Proofs.AllocNorm", "lemma", "wcsnorm_s: scratch buffer + reorder + compose composed")],
+    "C16": [("SafeC.Sort.cycleGo_perm", "SafeC.Proofs.SortRel", "lemma", "the element moves of cycle() (tmp = a[ar0]; a[ar_i] = a[ar_i+1]; a[ar_last] = tmp), ANY position list incl. repeated positions: result is a permutation"),
+            ("SafeC.Sort.smooth_rel", "SafeC.Proofs.SortRel", "lemma", "the whole smoothsort (main loop, final trinkle, dismantling loop), any bit vector/pshift/table state, any comparator: permutation + logged comparisons in range with the caller's ctx"),
+            ("SafeC.Sort.bsearchLoop_spec", "SafeC.Proofs.Bsearch", "lemma", "loop invariant of the halving loop on a partitioned array: left of the window compares greater, right of it less"),
+            ("SafeC.Sort.bsearchLoop_any", "SafeC.Proofs.Bsearch", "lemma", "halving loop under an arbitrary comparator: returns, probes inside the window, at most steps(m) probes"),
+            ("SafeC.Sort.steps_bound", "SafeC.Proofs.Bsearch", "lemma", "steps(m) <= ceil(log2 m) + 1, in the form 2^(steps m - 1) <= 2(m-1) for m >= 2")],
     "C08": [("SafeC.nullSlack_ok", "SafeC.Lemmas", "lemma", "both slack strategies (memset > 0x20, byte loop) zero the whole tail")],
     "C18": [("SafeC.setPrologue_ok", "SafeC.Proofs.MemSet", "lemma", "mem_prim_set alignment prologue: k <= count bytes stored, stops aligned or exhausted"),
             ("SafeC.setBlocks_ok", "SafeC.Proofs.MemSet", "lemma", "mem_prim_set 16-way unrolled body, induction on the block count: q*128 bytes"),
